@@ -126,10 +126,10 @@ func c19(c *Ctx) {
 				continue
 			}
 			nRead++
-			if !determined[f] && !neutral[f.Name()] && sinkOnlyField(c, f, wm) {
+			if !determined[f] && !neutral[c.P.OldFieldName(f)] && sinkOnlyField(c, f, wm) {
 				continue // a counter: written with Add/Store on the rendering path, its value never read there
 			}
-			if !determined[f] && !neutral[f.Name()] {
+			if !determined[f] && !neutral[c.P.OldFieldName(f)] {
 				ok, why = false, "Conn."+f.Name()+" is read on the rendering path of WriteMessage but is neither part of prepareKey nor in the reviewed neutral list: a cached frame would not reflect it"
 			}
 		}
